@@ -107,6 +107,12 @@ def run(ctx):
     for _ in range(2000 if tier == "quick" else 50000):
         n = rnd.choice((0, 1, 15, 16, 17, 24, 40, 100))
         cases.append(("random", bytes([rnd.choice((0x6c, 0x42, rnd.randrange(256)))] + [rnd.choice((0, 1, 2, 4, rnd.randrange(256))) for _ in range(n)])))
+    if ctx.get("replay"):
+        import json
+        rp = json.load(open(ctx["replay"]))["replay"]
+        h = rp.get("input", "")
+        h = h.split(" ")[-1] if " " in h else h          # accepts "load m <hex>" or the bare hex
+        cases = [("replay", bytes.fromhex("" if h == "-" else h))]
     seen = set(); uniq = []
     for c in cases:
         if c[1] not in seen:
